@@ -38,6 +38,17 @@ _Domain = Union[Container[A], Callable[[A], bool]]
 Domain = Evaluatable[_Domain]
 
 
+def _templated_strings(value: Any) -> List[str]:
+    """The strings inside a (possibly nested) option value; these may be templates."""
+    if isinstance(value, str):
+        return [value]
+    if isinstance(value, Mapping):
+        return [s for v in value.values() for s in _templated_strings(v)]
+    if isinstance(value, list):
+        return [s for v in value for s in _templated_strings(v)]
+    return []
+
+
 class Option(Evaluatable[A]):
     """A class representing a single user-provided option.
 
@@ -205,10 +216,9 @@ class Option(Evaluatable[A]):
         """
         if dotted_key_exists(self.key, options):
             value = get_dotted_key(self.key, options)
-            if isinstance(value, str):
-                keys = {self.key} | Template(value).keys(options)
-            else:
-                keys = {self.key}
+            keys = {self.key}.union(
+                *(Template(s).keys(options) for s in _templated_strings(value))
+            )
         elif self.default is not MISSING:
             keys = self.default.keys(options)
         else:
@@ -221,10 +231,9 @@ class Option(Evaluatable[A]):
         options = options or {}
         if dotted_key_exists(self.key, options):
             value = get_dotted_key(self.key, options)
-            if isinstance(value, str):
-                keys = {self.key} | Template(value).explain(options)
-            else:
-                keys = {self.key}
+            keys = {self.key}.union(
+                *(Template(s).explain(options) for s in _templated_strings(value))
+            )
         elif self.default is not MISSING:
             keys = self.default.explain(options)
         else:
